@@ -473,6 +473,83 @@ func TestVerifRecC03(t *testing.T) {
 		o.DoubleScalarMulBasepointVartime(vscalar(lo), A, vscalar(hb))
 		m.emit("dsm", []*EdwardsPoint{A, B}, [][2]interface{}{{lo, 0}, {hb, 1}}, &o, nil)
 	}
+	// ---- agreement sweep over the top of the scalar range: for every top byte 0x77..0x7f (the recentred top digit of every
+	// recoding is at its maximum there) with three fills, EVERY single-scalar entry point must return the same encoding,
+	// and that encoding is [s]P computed once by the specification (event "agree")
+	if os.Getenv("VERIF_NOAGREE") == "" {
+		fills := []byte{0x00, 0xff, 0x88}
+		for tb := 0x77; tb <= 0x7f; tb++ {
+			for fi, fill := range fills {
+				sb := make([]byte, 32)
+				for i := range sb {
+					sb[i] = fill
+				}
+				sb[31] = byte(tb)
+				P := B
+				if (tb+fi)%2 == 1 {
+					P = g.point()
+				}
+				sc := vscalar(sb)
+				zero := scalar.NewFromUint64(0)
+				var outs [][]int
+				var names []string
+				add := func(name string, f func(o *EdwardsPoint)) {
+					var o EdwardsPoint
+					f(&o)
+					enc, _ := o.MarshalBinary()
+					outs = append(outs, vb(enc))
+					names = append(names, name)
+				}
+				add("Mul", func(o *EdwardsPoint) { o.Mul(P, sc) })
+				add("MulBasepoint(NewTable(P))", func(o *EdwardsPoint) { o.MulBasepoint(NewEdwardsBasepointTable(P), sc) })
+				add("MultiscalarMul", func(o *EdwardsPoint) { o.MultiscalarMul([]*scalar.Scalar{sc}, []*EdwardsPoint{P}) })
+				add("MultiscalarMulVartime", func(o *EdwardsPoint) { o.MultiscalarMulVartime([]*scalar.Scalar{sc}, []*EdwardsPoint{P}) })
+				add("DoubleScalarMulBasepointVartime", func(o *EdwardsPoint) { o.DoubleScalarMulBasepointVartime(sc, P, zero) })
+				ep := NewExpandedEdwardsPoint(P)
+				add("ExpandedDoubleScalarMulBasepointVartime", func(o *EdwardsPoint) { o.ExpandedDoubleScalarMulBasepointVartime(sc, ep, zero) })
+				add("ExpandedMultiscalarMulVartime", func(o *EdwardsPoint) {
+					o.ExpandedMultiscalarMulVartime([]*scalar.Scalar{sc}, []*ExpandedEdwardsPoint{ep}, nil, nil)
+				})
+				if P == B {
+					add("MulBasepoint(ED25519_BASEPOINT_TABLE)", func(o *EdwardsPoint) { o.MulBasepoint(ED25519_BASEPOINT_TABLE, sc) })
+					add("DoubleScalarMulBasepointVartime(0,B,s)", func(o *EdwardsPoint) { o.DoubleScalarMulBasepointVartime(zero, P, sc) })
+				}
+				w.emit(vev{"op": "agree", "kind": "topbyte", "cfg": cfg, "s": vb(sb), "pts": []vev{vpt(vev{}, P)}, "outs": outs, "names": names})
+			}
+		}
+	}
+	// ---- short lists with the base point (the constant itself and a copy) at every position, distinct short scalars: a fast
+	// path keyed on a special point must keep scalars and points paired
+	{
+		Bc := *B
+		Q := g.point()
+		short := func() []byte {
+			b := make([]byte, 32)
+			copy(b, g.bytes(6))
+			b[0] |= 1
+			return b
+		}
+		for _, lst := range [][]*EdwardsPoint{{B, Q}, {Q, B}, {&Bc, Q}, {B, &Bc}, {B, Q, &Bc}, {Q, &Bc, B}} {
+			var terms [][2]interface{}
+			var ss []*scalar.Scalar
+			idx := map[*EdwardsPoint]int{}
+			var pts []*EdwardsPoint
+			for _, pp := range lst {
+				if _, ok := idx[pp]; !ok {
+					idx[pp] = len(pts)
+					pts = append(pts, pp)
+				}
+				sb := short()
+				terms = append(terms, [2]interface{}{sb, idx[pp]})
+				ss = append(ss, vscalar(sb))
+			}
+			var o EdwardsPoint
+			o.MultiscalarMulVartime(ss, lst)
+			m.emit("msmvt", pts, terms, &o, vev{"size": len(lst), "special": "basepoint"})
+			o.MultiscalarMul(ss, lst)
+			m.emit("msm", pts, terms, &o, vev{"size": len(lst), "special": "basepoint"})
+		}
+	}
 	// ---- threshold sizes (Straus/Pippenger at 190, Pippenger windows at 500 and 800)
 	sizes := []int{189, 190, 191, 500, 800}
 	if big_ > 1 {
